@@ -8,8 +8,8 @@ through the real `lsx_fir_to_phase` / `dft_stage_init` and prints the same lines
 ```
 sel d= n= len= wl= peak= b0= e0=          selection step of lsx_fir_to_phase for phase n/d percent
     -> sel g= cls= len= post= first= last= sum=
-dft lin= L= M= fnEqL= fsLe1= nRaw= tpLen= tpPost= dftLen=      (dftLen: what set_dft_length answered, before the padding loop)
-    -> dft nDesign= dftLen= numTaps= postPeak= preload= clk= step= blockLen= isz= fdok=
+dft lin= L= M= fnEqL= fsLe1= nRaw= tpLen= tpPost= dftLen=      (tpLen, tpPost: what lsx_fir_to_phase returned, before the trailing zeros; dftLen: what set_dft_length answered, before the padding loop)
+    -> dft nDesign= pad= dftLen= numTaps= postPeak= preload= clk= step= blockLen= isz= fdok=
 plan lin= L= dftLen= numTaps= postPeak= preload= clk= blockLen= isz=      an exported dft stage against the clauses
     -> plan fdok= latency= centred= shape= pad=
 pow2 x=                                   lsx_is_power_of_2
@@ -49,7 +49,7 @@ def doDft (t : List String) : String :=
   let i : DftIn := { lin := kvn t "lin" == 1, L := kvn t "L", M := kvn t "M", fnEqL := kvn t "fnEqL" == 1, fsLe1 := kvn t "fsLe1" == 1,
                      nRaw := kvn t "nRaw", tpLen := kvn t "tpLen", tpPost := kvn t "tpPost", dftLen := kvn t "dftLen" }
   let o := dftStageInit i
-  s!"dft nDesign={o.nDesign} dftLen={o.dftLen} numTaps={o.numTaps} postPeak={o.postPeak} preload={o.preload} clk={o.clk} step={o.step} blockLen={o.blockLen} isz={o.isz} fdok={b2n (decide (FDomainOK o))}"
+  s!"dft nDesign={o.nDesign} pad={o.padTaps} dftLen={o.dftLen} numTaps={o.numTaps} postPeak={o.postPeak} preload={o.preload} clk={o.clk} step={o.step} blockLen={o.blockLen} isz={o.isz} fdok={b2n (decide (FDomainOK o))}"
 
 def doPlan (t : List String) : String :=
   let L := kvn t "L"; let D := kvn t "dftLen"; let nt := kvn t "numTaps"; let pp := kvn t "postPeak"
